@@ -41,7 +41,7 @@ if [ "$what" = fixes ] || [ "$what" = all ]; then
 import json,re
 for f in json.load(open('/verif/known_findings.json'))['fixed']:
     m=re.match(r'fixed: property=(\S+) (\S+) ',f)
-    if m: print(m.group(2), m.group(1))
+    if m and 'demonstration only' not in f: print(m.group(2), m.group(1))
 P
   while read h props; do
     git -C $wt diff $h^ $h -- . ':!verif_contracts.go' | git -C $wt apply -R 2>/dev/null || { echo "skip fix $h (reverse patch does not apply on HEAD)"; continue; }
